@@ -160,8 +160,18 @@ def gen_ft_case(rng, tier, lorch=False, omitted=False, channel=2, win=None, dy_k
     idt = [gk == "intgrid" and rng.random() < 0.7, dk == "ints" and rng.random() < 0.6, ok == "intout" and rng.random() < 0.7]
     return {"xin": xin, "yin": yin, "xout": xout, "xmin": xmin, "xmax": xmax, "dy": dy,
             "lorch": bool(lorch), "omitted": bool(omitted), "channel": channel, "int_dtype": idt,
+            "flagform": rng.choice(["bool", "bool", "npbool", "npbool", "int"]) if (lorch or omitted) else "bool",
             "desc": {"n": n, "m": m, "grid": gk, "int_arrays": "".join("1" if t else "0" for t in idt), "data": dk, "out": ok, "window": wk, "dy": uk,
                      "zero_on_grid": 0.0 in xin, "lorch": bool(lorch), "omitted": bool(omitted)}}
+
+
+def flag_value(b, form):
+    """a switched-on option may arrive as a Python bool, a numpy bool (the result of a comparison on arrays) or 1"""
+    if form == "npbool":
+        return np.bool_(b)
+    if form == "int":
+        return int(bool(b))
+    return bool(b)
 
 
 def as_arr(vals, want_int):
@@ -171,15 +181,16 @@ def as_arr(vals, want_int):
     return np.array(vals, dtype=float)
 
 
-def call_ft(pystog, case, xin=None, yin=None, xout=None, dy="same", **over):
-    tr = pystog.Transformer()
+def call_ft(pystog, case, xin=None, yin=None, xout=None, dy="same", tr=None, **over):
+    tr = tr or pystog.Transformer()
     kw = {}
     lorch = over.get("lorch", case["lorch"])
     omitted = over.get("omitted", case["omitted"])
+    form = case.get("flagform", "bool")
     if lorch or case.get("pass_flags"):
-        kw["lorch"] = bool(lorch)
+        kw["lorch"] = flag_value(lorch, form)
     if omitted or case.get("pass_flags"):
-        kw["OmittedXrangeCorrection"] = bool(omitted)
+        kw["OmittedXrangeCorrection"] = flag_value(omitted, form)
     d = case["dy"] if isinstance(dy, str) else dy
     idt = case.get("int_dtype", [False, False, False])
     xi = as_arr(case["xin"] if xin is None else xin, idt[0] and xin is None)
@@ -190,9 +201,28 @@ def call_ft(pystog, case, xin=None, yin=None, xout=None, dy="same", **over):
     return np.asarray(xo_, float), np.asarray(yo, float), np.asarray(eo, float)
 
 
+def run_reused(pystog, case, caller, what):
+    """the call under test is made on a Transformer that has been used before (reuse.prime) and is used again afterwards
+    (reuse.hold)"""
+    from . import reuse
+    tr = pystog.Transformer()
+    alt_y, alt_d = reuse.alt_data(case["yin"])
+
+    def call(alt, with_dy):
+        if alt:
+            return caller(pystog, case, yin=alt_y, dy=alt_d if with_dy else None, tr=tr)
+        return caller(pystog, case, tr=tr)
+    reuse.prime(call)
+    outs = call(False, None)
+    res = {"xout": outs[0].tolist(), "yout": outs[1].tolist(), "eout": outs[2].tolist()}
+    msg = reuse.hold(call, outs, what)
+    if msg:
+        res["reuse_error"] = msg
+    return res
+
+
 def run_ft(pystog, case):
-    xo, yo, eo = call_ft(pystog, case)
-    return {"xout": xo.tolist(), "yout": yo.tolist(), "eout": eo.tolist()}
+    return run_reused(pystog, case, call_ft, "fourier_transform")
 
 
 def ft_to_coq(case, res):
@@ -231,7 +261,7 @@ def trapz_sine(x, y, xp):
 
 
 # ---- named transforms ----
-def gen_named_case(rng, tier, direction, X, Y, lorch=False, omitted=False, channel=2, positive=False, unsorted=False):
+def gen_named_case(rng, tier, direction, X, Y, lorch=False, omitted=False, channel=2, positive=False, unsorted=False, win="none"):
     n, m = sizes(rng, tier)
     gk, xin = unsorted_grid(rng, n) if unsorted else inc_grid(rng, n)
     if (omitted or positive) and xin[0] == 0.0:
@@ -248,9 +278,16 @@ def gen_named_case(rng, tier, direction, X, Y, lorch=False, omitted=False, chann
     idt = [gk == "intgrid" and rng.random() < 0.7, dk == "ints" and not (base and True) and rng.random() < 0.6, ok == "intout" and rng.random() < 0.7]
     if idt[1]:
         yin = [float(round(v)) for v in yin]
+    xmin, xmax, wk = window(rng, xin, win)
+    if xmax is not None and xmax <= 0:
+        xmax, wk = None, wk + "-nohi"
+    if (omitted or positive) and xmin is not None and xmin <= 0:
+        xmin, wk = None, wk + "-nolo"
     return {"dir": direction, "X": X, "Y": Y, "xin": xin, "yin": yin, "xout": xout, "dy": dy, "mat": mat,
-            "lorch": bool(lorch), "omitted": bool(omitted), "channel": channel, "int_dtype": idt,
-            "desc": {"method": "%s_to_%s" % (names_in[X], names_out[Y]), "n": n, "m": m, "grid": gk, "data": dk,
+            "lorch": bool(lorch), "omitted": bool(omitted), "channel": channel, "int_dtype": idt, "xmin": xmin, "xmax": xmax,
+            "flagform": rng.choice(["bool", "bool", "npbool", "npbool", "int"]) if (lorch or omitted) else "bool",
+            "callform": "kw" if (dy is not None and rng.random() < 0.35) else "pos",
+            "desc": {"method": "%s_to_%s" % (names_in[X], names_out[Y]), "n": n, "m": m, "grid": gk, "data": dk, "window": wk,
                      "int_arrays": "".join("1" if t else "0" for t in idt),
                      "out": ok, "dy": uk, "lorch": bool(lorch), "omitted": bool(omitted), "zero_on_grid": 0.0 in xin}}
 
@@ -259,27 +296,42 @@ def named_kwargs(case, **over):
     kw = L.kwargs_of(case["mat"])
     lorch = over.get("lorch", case["lorch"])
     omitted = over.get("omitted", case["omitted"])
+    form = case.get("flagform", "bool")
     if lorch or case.get("pass_flags"):
-        kw["lorch"] = bool(lorch)
+        kw["lorch"] = flag_value(lorch, form)
     if omitted or case.get("pass_flags"):
-        kw["OmittedXrangeCorrection"] = bool(omitted)
+        kw["OmittedXrangeCorrection"] = flag_value(omitted, form)
+    # the window keywords of the core transform, given to the named transform
+    if over.get("xmin", case.get("xmin")) is not None:
+        kw["xmin"] = over.get("xmin", case.get("xmin"))
+    if over.get("xmax", case.get("xmax")) is not None:
+        kw["xmax"] = over.get("xmax", case.get("xmax"))
     return kw
 
 
-def call_named(pystog, case, yin=None, dy="same", **over):
-    tr = pystog.Transformer()
+def named_name(case):
     names_in, names_out = (L.RN, L.GN) if case["dir"] == 0 else (L.GN, L.RN)
-    f = getattr(tr, "%s_to_%s" % (names_in[case["X"]], names_out[case["Y"]]))
+    return "%s_to_%s" % (names_in[case["X"]], names_out[case["Y"]])
+
+
+def call_named(pystog, case, yin=None, dy="same", tr=None, **over):
+    tr = tr or pystog.Transformer()
+    name = named_name(case)
+    f = getattr(tr, name)
     d = case["dy"] if isinstance(dy, str) else dy
     idt = case.get("int_dtype", [False, False, False])
-    xo, yo, eo = f(as_arr(case["xin"], idt[0]), as_arr(case["yin"] if yin is None else yin, idt[1] and yin is None),
-                   as_arr(case["xout"], idt[2]), None if d is None else np.array(d, float), **named_kwargs(case, **over))
+    kw = named_kwargs(case, **over)
+    args = [as_arr(case["xin"], idt[0]), as_arr(case["yin"] if yin is None else yin, idt[1] and yin is None), as_arr(case["xout"], idt[2])]
+    if case.get("callform") == "kw" and d is not None:
+        kw[L.unc_kw(name)] = np.array(d, float)
+        xo, yo, eo = f(*args, **kw)
+    else:
+        xo, yo, eo = f(*args, None if d is None else np.array(d, float), **kw)
     return np.asarray(xo, float), np.asarray(yo, float), np.asarray(eo, float)
 
 
 def run_named(pystog, case):
-    xo, yo, eo = call_named(pystog, case)
-    return {"xout": xo.tolist(), "yout": yo.tolist(), "eout": eo.tolist()}
+    return run_reused(pystog, case, call_named, named_name(case))
 
 
 def named_to_coq(case, res):
@@ -290,9 +342,10 @@ def named_to_coq(case, res):
     dy = case["dy"]
     m = case["mat"]
     return ([case["xin"], case["yin"], dy if dy is not None else [], case["xout"]],
-            [m["rho"], m["bcoh"], m["btot"]],
+            [m["rho"], m["bcoh"], m["btot"], case.get("xmin") if case.get("xmin") is not None else 0.0,
+             case.get("xmax") if case.get("xmax") is not None else 0.0],
             [case["dir"], case["X"], case["Y"], 0 if dy is None else 1, 1 if case["lorch"] else 0,
-             1 if case["omitted"] else 0, case["channel"]],
+             1 if case["omitted"] else 0, case["channel"], 0 if case.get("xmin") is None else 1, 0 if case.get("xmax") is None else 1],
             out)
 
 
